@@ -722,6 +722,7 @@ Subtree ts_subtree_edit(Subtree self, const TSInputEdit *input_edit, SubtreePool
         data->fragile_right = false;
         data->has_changes = false;
         data->has_external_tokens = false;
+        data->has_external_scanner_state_change = false;
         data->depends_on_column = false;
         data->is_missing = result.data.is_missing;
         data->is_keyword = result.data.is_keyword;
